@@ -18,7 +18,7 @@ claim('C02', 'exploration',
       'exhaustive enumeration of construction programs up to a shape bound, each executed on the real API and judged by an independent encoder/decoder',
       'Every construction program (all type trees to a depth bound x boundary values x header-field subsets x constructors x append entry points) is run through the public '
       'construction API; dbus_message_marshal output must decode under the independent codec to exactly the program\'s value tree, parse back to the same values, re-marshal byte-identically, '
-      'survive conversion from the other byte order unchanged, and copy to an equal message with serial 0.',
+      'survive conversion from the other byte order unchanged, and copy to an equal message with serial 0. Header values include continuations and truncations of the reserved local names and of the bus name and names at the length limit; block reads of fixed arrays are cross-checked with element-wise iteration.',
       'Trusts pyv/refdbus.py. Programs deeper/wider than the bound are not covered; append_args is exercised only through the basic-type path shared with append_basic.',
       'DESIGN.md section 4 C02')
 
